@@ -37,6 +37,7 @@ func c14(r *core.Run) {
 	r.Explanation = "Static rules over the attestation and report units (the keeper functions holding the quorum comparison, found from storage.MsgAttest / storage.MsgReport): the proof refresh / prover removal and the form deletion lie on every path behind the direct comparison count >= Param(AttestMinToPass) and behind the signer-matched flag; the counter is incremented by one only under the element's Complete flag inside the form loop; the flag and Complete:=true are set only under Eq(element.Provider, signer); acting paths always delete the loaded form; forms are built from the filtered active-provider list behind the size check."
 	r.Assumptions = []string{T1, T4, T6}
 	r.NotDecided = []string{"distinctness of the named providers among themselves (the stored active-provider list is trusted to hold one entry per provider)", "shuffle quality"}
+	r.Rule("C14/R8", "the quorum and form-size parameters are the governance-set ones: each key of the storage ParamSetPairs is bound to the Params field it names (a swapped binding makes a by-key change of AttestMinToPass alter the form size and leave the quorum unchanged)")
 	r.Rule("C14/R7", "the proof-holding test of form candidates (and every other store scan in the storage module) uses prefix iterators or text-safe ranges: no open-ended range used as an existence test, no decimal range bounds")
 	r.Rule("C14/R1", "quorum gate: every acting effect (proof refresh, prover removal, form deletion) is on all paths behind Cmp(count >= Param(AttestMinToPass)) with direct operands and behind Flag(signer matched)=true; all effects behind Found(form)=true")
 	r.Rule("C14/R2", "counting: count is a phi incremented by the constant 1 only under the element's Complete flag; the matched flag and Complete:=true are set only under Eq(element.Provider, signer)=true")
@@ -252,6 +253,8 @@ func c14(r *core.Run) {
 	}
 	r.Floor("C14/R1", n, 2, "quorum units")
 
+	// ---- R8 parameter keys address the fields they name
+	paramPairsConsistent(r, "C14/R8", "storage")
 	// ---- R7 store scans behind the candidate list
 	iteratorHygiene(r, "C14/R7", moduleFuncs(p, "storage"))
 	// ---- R6 a form never names the prover it concerns: the candidate filter is reflexive
